@@ -29,6 +29,7 @@ type Batch struct {
 	HangS    int               // watchdog per run, seconds (0 = default 30)
 	Chunk    int               // runs per worker process (0 = default 1500)
 	Note     string            // for evidence
+	Retries  int               // extra replay attempts before a violation counts as not reproduced (engines that leave a judgement to a real, not simulated, component: the Go collector)
 	Sound    bool              // data race reports of this batch are reported as they are (not replayable, but never false)
 	DiffBase string            // if set (use "std" for the default build): runs are also executed by that variant and the event logs must be equal
 	Extra    map[string]string // free
@@ -702,6 +703,9 @@ func Minimise(binDir string, b Batch, tier string, sig string, gen, sch []uint32
 	gen = append([]uint32(nil), trimZeros(gen)...)
 	sch = append([]uint32(nil), trimZeros(sch)...)
 	best := r.run(gen, sch)
+	for try := 0; try < b.Retries && (best.Violation == nil || best.Violation.Signature != sig); try++ {
+		best = r.run(gen, sch)
+	}
 	if best.Violation == nil || best.Violation.Signature != sig {
 		return gen, sch, best, r.Execs
 	}
@@ -971,7 +975,7 @@ func RunCheck(spec *CheckSpec) int {
 		}
 		// confirm in a fresh process
 		conf := Replay(spec.BinDir, g.first.Batch, spec.Tier, mg, ms, 60*time.Second)
-		if v.Rule == "RACE" {
+		if v.Rule == "RACE" || g.first.Batch.Retries > 0 {
 			// the race detector keeps a bounded access history: a report is never false but the same
 			// execution does not always produce it; give the replay a few more attempts, then fall back
 			// to the tape as found
